@@ -90,12 +90,40 @@ fn nn(a: u64) -> NonNull<()> {
 
 /// run one case: isa, kind (jump/bool), src, tramp, fake
 pub fn run_case(isa: &str, kind: &str, src: u64, tramp: u64, fake: u64, v: bool, case: u64) {
+    run_case2(isa, kind, src, tramp, fake, v, case, 0)
+}
+
+/// `prev_fake` != 0: the function already carries a fake (installed first, through the same emitter, its trampoline one page
+/// above `tramp`); the case proper is the SECOND installation on top of it
+pub fn run_case2(isa: &str, kind: &str, src: u64, tramp: u64, fake: u64, v: bool, case: u64, prev_fake: u64) {
     ST.with(|s| {
         let mut s = s.borrow_mut();
         *s = SimState::default();
         s.tramp = tramp;
     });
-    let r = std::panic::catch_unwind(|| unsafe {
+    if prev_fake != 0 {
+        ST.with(|s| s.borrow_mut().tramp = tramp.wrapping_add(0x1000));
+        let _ = std::panic::catch_unwind(|| install(isa, "jump", src, prev_fake, false));
+        ST.with(|s| {
+            let mut s = s.borrow_mut();
+            s.tramp = tramp;
+            s.reads.clear();
+            s.writes.clear();
+            s.allocs.clear();
+            s.guard = None;
+        });
+    }
+    let base0 = if isa == "t32" || isa == "a32" { src & !1 } else { src };
+    let before: Vec<u8> = ST.with(|s| {
+        let s = s.borrow();
+        (0..16u64).map(|i| *s.mem.get(&(base0 + i)).unwrap_or(&background(base0 + i))).collect()
+    });
+    let r = std::panic::catch_unwind(|| install(isa, kind, src, fake, v));
+    finish_case(isa, kind, src, tramp, fake, v, case, prev_fake, before, r);
+}
+
+fn install(isa: &str, kind: &str, src: u64, fake: u64, v: bool) {
+    unsafe {
         match isa {
             "a64-linux" => {
                 use a64_linux::common::FuncPtrInternal as F;
@@ -139,7 +167,12 @@ pub fn run_case(isa: &str, kind: &str, src: u64, tramp: u64, fake: u64, v: bool,
             }
             x => panic!("harness: unknown isa {x}"),
         }
-    });
+    }
+}
+
+#[allow(clippy::too_many_arguments)]
+fn finish_case(isa: &str, kind: &str, src: u64, tramp: u64, fake: u64, v: bool, case: u64, prev_fake: u64, before: Vec<u8>,
+               r: Result<(), Box<dyn std::any::Any + Send>>) {
     let (outcome, msg) = match &r {
         Ok(()) => ("ok", String::new()),
         Err(p) => ("panic", crate::panics::payload_str(&**p)),
@@ -150,7 +183,6 @@ pub fn run_case(isa: &str, kind: &str, src: u64, tramp: u64, fake: u64, v: bool,
         // that were there before; trampoline image = 24 bytes at the trampoline
         let base = if isa == "t32" || isa == "a32" { src & !1 } else { src };
         let img = |a: u64, n: u64| -> Vec<u8> { (0..n).map(|i| *s.mem.get(&(a + i)).unwrap_or(&background(a + i))).collect() };
-        let before: Vec<u8> = (0..16u64).map(|i| background(base + i)).collect();
         let writes: Vec<Value> = s.writes.iter().map(|(k, a, b)| json!({"kind":k,"addr":a8(*a),"bytes":b})).collect();
         let reads: Vec<Value> = s.reads.iter().map(|(a, l)| json!({"addr":a8(*a),"len":l})).collect();
         let g = match &s.guard {
@@ -161,7 +193,7 @@ pub fn run_case(isa: &str, kind: &str, src: u64, tramp: u64, fake: u64, v: bool,
             "src":a8(src),"base":a8(base),"tramp":a8(tramp),"fake":a8(fake),
             "outcome":outcome,"cls":crate::panics::classify(&msg).0,"msg":msg,
             "entry":img(base, 16),"before":before,"trampb": if tramp != 0 { img(tramp, 24) } else { vec![0u8;24] },
-            "nwrites":writes.len(),"writes":writes,"reads":reads,"guard":g,"nalloc":s.allocs.len()}));
+            "nwrites":writes.len(),"writes":writes,"reads":reads,"guard":g,"nalloc":s.allocs.len(),"prev_fake":a8(prev_fake),"refake":prev_fake != 0}));
     });
 }
 
@@ -183,8 +215,8 @@ pub fn run(script: &str, out: &str) {
         SCENARIO.store(u(&sc, "id"), SeqCst);
         if let Some(cases) = sc.get("cases").and_then(|x| x.as_array()) {
             for (k, c) in cases.iter().enumerate() {
-                run_case(c.get("isa").and_then(|x| x.as_str()).unwrap_or(""), c.get("kind").and_then(|x| x.as_str()).unwrap_or("jump"),
-                    u(c, "src"), u(c, "tramp"), u(c, "fake"), u(c, "v") != 0, k as u64 + 1);
+                run_case2(c.get("isa").and_then(|x| x.as_str()).unwrap_or(""), c.get("kind").and_then(|x| x.as_str()).unwrap_or("jump"),
+                    u(c, "src"), u(c, "tramp"), u(c, "fake"), u(c, "v") != 0, k as u64 + 1, u(c, "prev_fake"));
             }
         }
     }
